@@ -383,7 +383,8 @@ def model_check(cases, results, tables):
         if pr is not None and 'ns' in pr:
             opts = [o for o in tables['classes'][EP_CLASS[ep]] if o != 'Ignore'] + ['log_level']
             exp = '[' + '; '.join('(%s, %s)' % (coq_str(o), coq_json(pr['ns'].get(o), True)) for o in opts) + ']'
-            t += ' && check_ns %s %s %s %s %s' % (coq_str(ep), files, coq_json(c.get('flags', {})), exp, coq_json(pr.get('ignore') or {}, True))
+            flags = '[' + '; '.join('(%s, %s)' % (coq_str(o), coq_json(v)) for o, v in c.get('flags', {}).items()) + ']'
+            t += ' && check_ns %s %s %s %s %s' % (coq_str(ep), files, flags, exp, coq_json(pr.get('ignore') or {}, True))
         lines.append('Definition k%d : bool := %s.' % (i, t)); idx.append(i)
     for j in range(0, len(idx), 200):
         lines.append('Eval vm_compute in (failing [' + '; '.join('(%d%%N, k%d)' % (i, i) for i in idx[j:j + 200]) + ']).')
